@@ -45,6 +45,18 @@ Theorem C20_failing_idx_nil : forall p, failing_idx p = [] <-> check_program p =
 Proof. exact failing_idx_nil. Qed.
 Print Assumptions C20_failing_idx_nil.
 
+(* the triples the harness reads back (position in `refs`, source line, diagnosis) are exactly the references that
+   do not resolve: each printed triple is one, and each one is printed *)
+Theorem C20_failing_idx_sound : forall p i ln d, In (i, ln, d) (failing_idx p) ->
+  exists ref, nth_error (refs p) i = Some ref /\ ~ Resolves p ref /\ ln = lref_line ref /\ d = diagnose_lref p ref.
+Proof. exact failing_idx_sound. Qed.
+Print Assumptions C20_failing_idx_sound.
+
+Theorem C20_failing_idx_complete : forall p ref, In ref (refs p) -> ~ Resolves p ref ->
+  exists i, In (i, lref_line ref, diagnose_lref p ref) (failing_idx p) /\ nth_error (refs p) i = Some ref.
+Proof. exact failing_idx_complete. Qed.
+Print Assumptions C20_failing_idx_complete.
+
 (* the arity check is CPython's argument binding: count, duplicates, unexpected / doubly bound keywords, missing parameters *)
 Theorem C20_arity_spec : forall sg npos kws, arity_ok sg npos kws = true <-> ArityOK sg npos kws.
 Proof. exact arity_ok_iff. Qed.
